@@ -35,6 +35,7 @@ TEXTS = {
     "named_recompile": 'def recompile { splitters: uid return "R1" weighted 1, "R2" weighted 1 }',
     "named_run_experiment": 'def run_experiment { splitters: uid return "X1" weighted 1, "X2" weighted 2 }',
     "named__checksum": 'def _checksum { splitters: uid return "K1" weighted 2, "K2" weighted 1 }',
+    "bad_bom": 'def exp { splitters: uid \ufeff return "Y1" weighted 1 }',
     "bad_empty": "",
     "bad_two_defs": A + "\n" + 'def other { splitters: org return "X" weighted 1 }',
 }
